@@ -20,6 +20,7 @@ import (
 	"runtime"
 	"sort"
 	"strings"
+	"sync"
 	"syscall"
 	"time"
 
@@ -33,6 +34,7 @@ import (
 
 	"verifharness/census"
 	"verifharness/payload"
+	"verifharness/refwire"
 	"verifharness/rig"
 	"verifharness/runner"
 	"verifharness/simnet"
@@ -821,6 +823,8 @@ func gen(tier string, seed uint64) []runner.Scenario {
 		}
 	})
 
+	add("live/server-directed", liveDirected)
+
 	// I. live managers fed hostile byte streams (child process isolation matters here)
 	nlive := 150
 	if thorough {
@@ -832,6 +836,86 @@ func gen(tier string, seed uint64) []runner.Scenario {
 		add(fmt.Sprintf("live/%s/%d", role, k), func(a *acc) { liveCase(a, role, payload.Hash(seed, 0x131, uint64(k))) })
 	}
 	return out
+}
+
+// liveDirected feeds a live server sessions a conforming client can emit around the metadata packet:
+// several metadata packets for one stream (empty payloads included), metadata never followed by its
+// invoke, with and without the cancel packet a soft-cancelling client sends. The dispatch must neither
+// crash the process nor stop: the complete call at the end of each session must reach its handler.
+func liveDirected(a *acc) {
+	md := func(pairs ...string) []byte {
+		m := map[string]string{}
+		for i := 0; i+1 < len(pairs); i += 2 {
+			m[pairs[i]] = pairs[i+1]
+		}
+		b, _ := drpcmetadata.Encode(nil, m)
+		return b
+	}
+	fr := func(sid, mid uint64, kind drpcwire.Kind, ctl bool, data []byte) []byte {
+		return refwire.Encode(nil, refwire.Frame{Stream: sid, Message: mid, Kind: uint8(kind), Done: true, Control: ctl, Data: data})
+	}
+	call := func(sid uint64, first uint64) []byte {
+		b := fr(sid, first, drpcwire.KindInvoke, false, []byte("/svc/Method"))
+		b = append(b, fr(sid, first+1, drpcwire.KindMessage, false, payload.Make(sid, 0, 0, 0, 4))...)
+		return append(b, fr(sid, first+2, drpcwire.KindCloseSend, false, nil)...)
+	}
+	type session struct {
+		name   string
+		chunks [][]byte
+		last   uint64 // stream id of the complete call at the end
+	}
+	sessions := []session{
+		{"metadata-only then soft-cancel packet then a call", [][]byte{fr(1, 1, drpcwire.KindInvokeMetadata, false, md("k", "v")), fr(1, 2, drpcwire.KindCancel, true, nil), append(fr(2, 1, drpcwire.KindInvokeMetadata, false, md("a", "b")), call(2, 2)...)}, 2},
+		{"metadata-only then a call", [][]byte{fr(1, 1, drpcwire.KindInvokeMetadata, false, md("k", "v")), call(2, 1)}, 2},
+		{"empty metadata then filled metadata for one stream", [][]byte{append(append(fr(1, 1, drpcwire.KindInvokeMetadata, false, nil), fr(1, 2, drpcwire.KindInvokeMetadata, false, md("k", "v"))...), call(1, 3)...)}, 1},
+		{"filled metadata then empty metadata for one stream", [][]byte{append(append(fr(1, 1, drpcwire.KindInvokeMetadata, false, md("k", "v")), fr(1, 2, drpcwire.KindInvokeMetadata, false, nil)...), call(1, 3)...)}, 1},
+		{"three metadata packets for one stream", [][]byte{append(append(append(fr(1, 1, drpcwire.KindInvokeMetadata, false, md("a", "1")), fr(1, 2, drpcwire.KindInvokeMetadata, false, md("b", "2"))...), fr(1, 3, drpcwire.KindInvokeMetadata, false, md())...), call(1, 4)...)}, 1},
+		{"empty metadata twice then metadata-only stream then a call", [][]byte{fr(1, 1, drpcwire.KindInvokeMetadata, false, nil), fr(1, 2, drpcwire.KindInvokeMetadata, false, nil), append(fr(2, 1, drpcwire.KindInvokeMetadata, false, md("z", "")), call(2, 2)...)}, 2},
+	}
+	for _, soft := range []bool{false, true} {
+		for _, ss := range sessions {
+			a.n++
+			var mu sync.Mutex
+			served := map[string]bool{}
+			h := rig.HandlerFunc(func(stream drpc.Stream, rpc string) error {
+				var m []byte
+				if err := stream.MsgRecv(&m, payload.Enc{}); err == nil {
+					if hd, perr := payload.Parse(m); perr == nil {
+						mu.Lock()
+						served[fmt.Sprint(hd.Tag)] = true
+						mu.Unlock()
+					}
+				}
+				return nil
+			})
+			rg := rig.New(rig.Config{Net: simnet.Opts{Cap: -1}, Server: drpcmanager.Options{SoftCancel: soft}, NoConn: true}, h)
+			raw := rg.Pair.A
+			rig.Go("drain", func() (interface{}, error) {
+				buf := make([]byte, 4096)
+				for {
+					if _, err := raw.Read(buf); err != nil {
+						return nil, nil
+					}
+				}
+			})
+			var all []byte
+			for _, c := range ss.chunks {
+				all = append(all, c...)
+				os.WriteFile(lastInputFile, []byte(fmt.Sprintf("server-directed %x\n", all)), 0o644)
+				raw.Write(c)
+				census.Quiesce(rig.Watchdog)
+			}
+			mu.Lock()
+			ok := served[fmt.Sprint(ss.last)]
+			mu.Unlock()
+			if !ok && !rig.IsClosed(rg.ServeOp.Done()) {
+				_, snap := census.Quiesce(rig.Watchdog)
+				a.fail("manager-dispatch-does-not-return", "session %q (soft=%v): with everything delivered and the connection open, the complete call for stream %d has not reached its handler: the dispatch stopped\n%s", ss.name, soft, ss.last, census.Dump(census.InDRPC(snap)))
+			}
+			rg.Teardown()
+		}
+	}
+	a.sample = map[string]interface{}{"batch": a.id, "sessions": len(sessions)}
 }
 
 func liveCase(a *acc, role string, seed uint64) {
